@@ -42,6 +42,13 @@ def run(ctx):
             ctx.violation("after load round %d the metrics endpoint reports %s, the responses actually received are %s%s" % (s["round"], json.dumps(s["metrics_got"]), json.dumps(s["metrics_want"]),
                                                                                                                         "; " + "; ".join(s.get("bad_responses") or [])[:400] if s.get("bad_responses") else ""),
                           dict(kind="srv-load", summary=s))
+    # flood: one behaviour of Server.tla with many clients — N slow uploads inside the handler at once (gauge = N while held, 0 afterwards,
+    # totals grow by exactly the responses received, every client gets its own answer), several floods on one server
+    floods = [3, 70, 130] if ctx.quick else [3, 70, 130, 300, 520, 70]
+    for x in ctx.run_vh(["srv-flood"], dict(mode="deletion", depth=2, batch=1, floods=floods), timeout=1200):
+        if not x["ok"]:
+            ctx.violation("flood of simultaneous requests: %s: %s" % (x["id"], x.get("detail")), dict(kind="srv-flood", cases=x.get("case")))
+    ctx.cov["floods"] = floods
     if rej and not ctx.violations and rej["event"] and rej["event"].get("event", "").startswith("scrape"):
         ctx.violation("recorded scrape rejected by TraceServer.tla at line %d: %s" % (rej["line"], json.dumps(rej["event"])[:300]), dict(kind="srv-trace", rejection=rej))
     if beh and diverged * 2 > len(beh) and not ctx.violations:
@@ -57,7 +64,9 @@ def run(ctx):
 
 def replay(ctx, path):
     case = json.load(open(path))
-    if case["kind"] == "srv-replay":
+    if case["kind"] == "srv-flood":
+        bad = [x for x in ctx.run_vh(["srv-flood"], case["cases"], timeout=1200) if not x["ok"]]
+    elif case["kind"] == "srv-replay":
         res = ctx.run_vh(["srv-replay"], case["cases"], timeout=3000)
         bad = [x for x in res if any(m["kind"] == "metrics" for m in (x.get("observed") or []))]
     else:
